@@ -234,7 +234,18 @@ macro_rules! s_v9_options_template {
                             }
                             assert!(p.options_templates.len() == 1);
                             let ct = p.options_templates.get(&id).unwrap();
-                            assert!(*ct == *t);
+                            assert!(ct.template_id == id && ct.options_scope_length == t.options_scope_length && ct.options_length == t.options_length);
+                            assert!(ct.scope_fields.len() == SL && ct.option_fields.len() == OL);
+                            let mut j = 0;
+                            while j < SL {
+                                assert!(scope_eq(&ct.scope_fields[j], &buf, 10 + 4 * j));
+                                j += 1;
+                            }
+                            let mut j = 0;
+                            while j < OL {
+                                assert!(field_eq(&ct.option_fields[j], &buf, 10 + 4 * SL + 4 * j));
+                                j += 1;
+                            }
                             assert!(p.templates.len() == 0);
                         }
                         _ => assert!(false),
